@@ -73,9 +73,8 @@ fn check_small_ellipse(d: u8, ds: u8) {
   let c: u64 = kani::any();
   kani::assume(c < sp::n_hash(d));
   vb::g_reset(c, d);
-  let a: f64 = kani::any(); let b: f64 = kani::any();
-  kani::assume(a > 0.0 && a < 0.5 && b > 0.0 && b <= a);
-  let _ = l.elliptical_cone_coverage_internal(0.3, 0.2, a, b, 0.1);
+  // concrete ellipse: every geometric answer is an arbitrary stub, the ellipse only has to exist
+  let _ = l.elliptical_cone_coverage_internal(0.3, 0.2, 0.01, 0.005, 0.1);
   let (_last, state, count, ok) = vb::g_snapshot();
   assert!(ok && count <= 1, "C13/C09 small-ellipse branch pushes valid cells of the requested depth, in increasing order, without duplicates");
   // a pushed cell is the ancestor (at the requested depth) of the centre cell or of one of its neighbours
@@ -185,3 +184,85 @@ polyrec!(poly_recur_delta1_n1, 2, 1, 1);
 polyrec!(poly_recur_delta1_n2, 0, 1, 2);
 polyrec!(poly_recur_delta2_n1, 2, 2, 1);
 polyrec!(poly_recur_delta2_n0, 1, 2, 0);
+
+// ---- C13 recursion contract (geometry predicates as arbitrary answers) --------------------------------
+// elliptical_cone_coverage_recur with EllipticalCone::{contains_cone, contains, overlap_cone} replaced by
+// arbitrary tables over the 21 cells of a 2-level tree (cell centres and vertices are tags) and the
+// builder by its contract: for EVERY assignment of answers a deepest cell is
+//   full     iff some level on its path answered contains_cone, or it was reached and its 4 vertices
+//            are all contained,
+//   partial  iff it was reached (every level: contains(centre) || overlap_cone) and not full,
+//   absent   otherwise; pushes ordered, the threshold index is the recursion level.
+type ECone = crate::sph_geom::elliptical_cone::EllipticalCone;
+static mut Q_ROOT: u64 = 0;
+static mut Q_D0: u8 = 0;
+static mut Q_DELTA: u8 = 0;
+static mut Q_CC: [bool; 21] = [false; 21];
+static mut Q_CT: [bool; 21] = [false; 21];
+static mut Q_OV: [bool; 21] = [false; 21];
+static mut Q_V: [[bool; 4]; 21] = [[false; 4]; 21];
+static mut Q_DIST_OK: bool = true;
+fn q_index(lvl: u8, hash: u64) -> usize {
+  unsafe { let rel = hash - (Q_ROOT << (2 * lvl as u32)); match lvl { 0 => 0, 1 => 1 + (rel & 3) as usize, _ => 5 + (rel & 15) as usize } }
+}
+fn q_of(lon: f64, lat: f64) -> usize { unsafe { q_index(lat as u8 - Q_D0, lon as u64) } }
+fn ghost_center_tag(l: &Layer, hash: u64) -> (f64, f64) { (hash as f64, l.depth as f64) }
+fn ghost_vertices_tag(_l: &Layer, hash: u64) -> [(f64, f64); 4] { let h = hash as f64; [(h, -1.0), (h, -2.0), (h, -3.0), (h, -4.0)] }
+fn ghost_e_contains_cone(_e: &ECone, lon: f64, lat: f64, r: f64) -> bool {
+  // the threshold handed over must be the one of the recursion level (distances[level] = level + 1 here)
+  unsafe { if r != (lat as u8 - Q_D0) as f64 + 1.0 { Q_DIST_OK = false; } Q_CC[q_of(lon, lat)] }
+}
+fn ghost_e_overlap(_e: &ECone, lon: f64, lat: f64, r: f64) -> bool {
+  unsafe { if r != (lat as u8 - Q_D0) as f64 + 1.0 { Q_DIST_OK = false; } Q_OV[q_of(lon, lat)] }
+}
+fn ghost_e_contains(_e: &ECone, lon: f64, lat: f64) -> bool {
+  unsafe { if lat < 0.0 { Q_V[q_index(Q_DELTA, lon as u64)][(-lat) as usize - 1] } else { Q_CT[q_of(lon, lat)] } }
+}
+fn check_ellipse_recur(d0: u8, delta: u8) {
+  let root: u64 = kani::any(); kani::assume(root < sp::n_hash(d0));
+  let l = Layer::new(d0 + delta);
+  unsafe {
+    Q_ROOT = root; Q_D0 = d0; Q_DELTA = delta; Q_DIST_OK = true;
+    let mut k = 0; while k < 21 { Q_CC[k] = kani::any(); Q_CT[k] = kani::any(); Q_OV[k] = kani::any(); Q_V[k] = kani::any(); k += 1; }
+  }
+  let rel: u64 = kani::any(); kani::assume(rel < (1u64 << (2 * delta as u32)));
+  let c = (root << (2 * delta as u32)) | rel;
+  vb::g_reset(c, d0 + delta);
+  let mut b = BMOCBuilderUnsafe::new(d0 + delta, 0);
+  let e = ECone::new(0.3, 0.2, 0.01, 0.005, 0.1);
+  let dist = [1.0f64, 2.0, 3.0];
+  l.elliptical_cone_coverage_recur(d0, root, &e, &dist[..(delta as usize + 1)], 0, &mut b);
+  let (_, state, count, ok) = vb::g_snapshot();
+  let mut expect = 0u8; let mut lvl = 0u8; let mut done = false;
+  while lvl <= 2 {
+    if !done && lvl <= delta {
+      let k = q_index(lvl, c >> (2 * (delta - lvl) as u32));
+      let (cc, ct, ov, v) = unsafe { (Q_CC[k], Q_CT[k], Q_OV[k], Q_V[k]) };
+      if cc { expect = 2; done = true; }
+      else if ct || ov { if lvl == delta { expect = if v[0] && v[1] && v[2] && v[3] { 2 } else { 1 }; done = true; } }
+      else { expect = 0; done = true; }
+    }
+    lvl += 1;
+  }
+  assert!(ok && count <= 1, "C13/C09 elliptical recursion pushes valid cells in strictly increasing, disjoint order");
+  assert!(unsafe { Q_DIST_OK }, "C13 the cell-size threshold used at a level is the one tabulated for that level");
+  assert!(state == expect, "C13 elliptical descent: full iff contains_cone on the path or (reached and 4 vertices contained); partial iff reached and not full; dropped otherwise");
+  kani::cover!(expect == 1, "partial cell at the requested depth");
+  kani::cover!(expect == 2, "full cell");
+}
+macro_rules! ellrec { ($name:ident, $d0:literal, $dl:literal) => {
+  #[kani::proof]
+  #[kani::stub(crate::nested::get_or_create, ghost_goc)]
+  #[kani::stub(Layer::center, ghost_center_tag)]
+  #[kani::stub(Layer::vertices, ghost_vertices_tag)]
+  #[kani::stub(crate::sph_geom::elliptical_cone::EllipticalCone::contains_cone, ghost_e_contains_cone)]
+  #[kani::stub(crate::sph_geom::elliptical_cone::EllipticalCone::contains, ghost_e_contains)]
+  #[kani::stub(crate::sph_geom::elliptical_cone::EllipticalCone::overlap_cone, ghost_e_overlap)]
+  #[kani::stub(BMOCBuilderUnsafe::new, vb::ghost_new)]
+  #[kani::stub(BMOCBuilderUnsafe::push, vb::ghost_push)]
+  #[kani::unwind(22)]
+  fn $name() { check_ellipse_recur($d0, $dl) }
+} }
+ellrec!(ellipse_recur_delta0, 3, 0);
+ellrec!(ellipse_recur_delta1, 0, 1);
+ellrec!(ellipse_recur_delta2, 2, 2);
